@@ -274,14 +274,14 @@ func TestVerif_C42(t *testing.T) {
 	// in-memory and local cases, then a few git-only cases per part (every git process costs
 	// milliseconds to a tenth of a second depending on the machine)
 	vh.Check(t, "ranges", 500, 1200, func(rt *rapid.T) { c42RangesCase(rt, recR, 12, 0) })
-	vh.Check(t, "ranges_git", 5, 6, func(rt *rapid.T) { c42RangesCase(rt, recR, 0, 100) })
+	vh.Check(t, "ranges_git", 5, 4, func(rt *rapid.T) { c42RangesCase(rt, recR, 0, 100) })
 	vh.Check(t, "concat", 300, 700, func(rt *rapid.T) { c42ConcatCase(rt, recC, 10, 0) })
-	vh.Check(t, "concat_git", 3, 3, func(rt *rapid.T) { c42ConcatCase(rt, recC, 0, 100) })
+	vh.Check(t, "concat_git", 3, 2, func(rt *rapid.T) { c42ConcatCase(rt, recC, 0, 100) })
 	vh.Check(t, "cas", 500, 1200, func(rt *rapid.T) { c42CasCase(rt, recS, 14, 0) })
-	vh.Check(t, "cas_git", 5, 6, func(rt *rapid.T) { c42CasCase(rt, recS, 0, 100) })
+	vh.Check(t, "cas_git", 5, 4, func(rt *rapid.T) { c42CasCase(rt, recS, 0, 100) })
 	recG := vh.NewRecorder("C42", "conc", "exploration", c42ConcRule, append(assume,
 		"one goroutine per client handle (a GitBlobstore handle deliberately serves its cached manifest to readers while its own write is in flight, so a handle is one sequential client)")...)
 	defer recG.Write(t)
 	vh.Check(t, "conc", 160, 300, func(rt *rapid.T) { c42ConcCase(rt, recG, 10, 0) })
-	vh.Check(t, "conc_git", 1, 2, func(rt *rapid.T) { c42ConcCase(rt, recG, 0, 100) })
+	vh.Check(t, "conc_git", 1, 1, func(rt *rapid.T) { c42ConcCase(rt, recG, 0, 100) })
 }
